@@ -97,6 +97,15 @@ func c10eval(r *vx.R, c c10case) {
 	if c.Spare != "inplace" && c.Spare != "nil" && c.Spare != "empty" && !bytes.Equal(backing[:c.DstLen], prefix) {
 		r.Violation("buf:"+c.Op+":dst-prefix-modified", "the first len(dst) bytes of the destination were changed", c)
 	}
+	// what lies behind the result inside the destination's capacity is the caller's: it still holds the fill pattern
+	if c.Spare != "inplace" && c.Spare != "nil" && c.Spare != "empty" && len(out) <= len(backing) && len(out) > 0 && &out[0] == &backing[:1][0] {
+		for i := len(out); i < len(backing); i++ {
+			if backing[i] != 0xA5 {
+				r.Violation(fmt.Sprintf("buf:%s:writes-behind-result:tag%d", c.Op, c.Tag), fmt.Sprintf("%s wrote behind its %d-byte result inside the destination's capacity (byte %d of %d) [%s]", c.Op, len(out), i, len(backing), path), c)
+				break
+			}
+		}
+	}
 	if !bytes.Equal(nonce, keepN) || !bytes.Equal(aad, keepA) {
 		r.Violation("buf:"+c.Op+":nonce-or-aad-modified", "nonce or additional data modified", c)
 	}
@@ -115,6 +124,32 @@ func c10eval(r *vx.R, c c10case) {
 			region = "tag"
 		}
 		r.Violation(fmt.Sprintf("buf:%s:input-modified:%s", c.Op, region), fmt.Sprintf("%s modified its input (first changed byte %d of %d, in the %s) [%s]", c.Op, first, len(inbuf), region, path), c)
+	}
+	if c.Op == "open" && c.Spare != "inplace" && len(inbuf) > 0 {
+		// the same call on a forged message: error, and nothing the caller owns is touched - not the dst prefix, not
+		// the additional data, not the ciphertext
+		bad := append([]byte{}, inbuf...)
+		bad[len(bad)-1] ^= 0x10
+		keepBad := append([]byte{}, bad...)
+		var pref []byte
+		if backing != nil {
+			pref = append([]byte{}, backing[:c.DstLen]...)
+		}
+		var ferr error
+		var fout []byte
+		kind, msg = vx.TryFault(func() { fout, ferr = a.Open(dst, nonce, bad, aad) })
+		switch {
+		case kind != "":
+			r.Violation("buf:open:forged:panic", msg, c)
+		case ferr == nil:
+			r.Violation("buf:open:forged:accepted", "a message with a flipped tag bit was accepted", c)
+		case fout != nil:
+			r.Violation("buf:open:forged:output", "a rejected Open returned a non-nil slice", c)
+		case backing != nil && !bytes.Equal(backing[:c.DstLen], pref):
+			r.Violation("buf:open:forged:dst-prefix-modified", fmt.Sprintf("a rejected Open changed the %d bytes the caller already had in dst [%s]", c.DstLen, path), c)
+		case !bytes.Equal(aad, keepA) || !bytes.Equal(nonce, keepN) || !bytes.Equal(bad, keepBad):
+			r.Violation("buf:open:forged:input-modified", "a rejected Open changed nonce, additional data or ciphertext", c)
+		}
 	}
 	if c.Repeat && c.Spare != "inplace" {
 		// the same call on the same buffers must give the same answer
@@ -245,6 +280,26 @@ func c10arenaEval(r *vx.R, c c10arena) {
 	if inPlace && c.Op == "open" && !bytes.Equal(in[c.PtLen:], keepIn[c.PtLen:]) {
 		r.Violation("buf:arena:tag-modified:"+name, fmt.Sprintf("in-place Open changed the tag bytes of the caller's ciphertext [%s]", path), c)
 	}
+	if c.Op == "open" && (c.Layout == "tls" || c.Layout == "aad=prefix") {
+		// a forged record in the same layout: rejected, header (dst prefix = additional data) intact
+		copy(rec, keepRec)
+		if inPlace {
+			copy(rec[c.Hdr:], input)
+			rec[c.Hdr+inLen-1] ^= 0x20
+		} else {
+			in = append([]byte{}, input...)
+			in[len(in)-1] ^= 0x20
+		}
+		var ferr error
+		kind, msg = vx.TryFault(func() { _, ferr = a.Open(rec[:c.Hdr], nonce, in, rec[:c.Hdr]) })
+		if kind != "" {
+			r.Violation("buf:arena:forged:panic:"+name, msg, c)
+		} else if ferr == nil {
+			r.Violation("buf:arena:forged:accepted:"+name, "forged record accepted", c)
+		} else if !bytes.Equal(rec[:c.Hdr], keepRec[:c.Hdr]) {
+			r.Violation("buf:arena:forged:header-modified:"+name, fmt.Sprintf("a rejected Open changed the record header (dst prefix / additional data) [%s]", path), c)
+		}
+	}
 	r.Shape(fmt.Sprintf("arena:%s:h%d:pt%d:aad%d:t%d:n%d", name, c.Hdr, c.PtLen, c.AadLen, c.Tag, c.NLen))
 }
 
@@ -259,7 +314,7 @@ func spareClass(s string) string {
 }
 
 func TestVX_C10_GCM(t *testing.T) {
-	r := vx.Begin("C10", gcmPart("buffers-gcm"), "Seal and Open with every destination shape: len(dst) in {0..9,11,15,16,17,31,39} x spare capacity in {0,1,need-1,need,need+1,need+64}, nil, non-nil empty, and the in-place idiom dst=input[:0] - x message lengths {0,1,15,16,17,64,255,256,257,1100} x aad {0,17} x tag {12,16} x nonce {12,16}; each call repeated on the same buffers; arguments sharing one buffer in every legal way: TLS record idiom (dst prefix = additional data, payload in place behind it), in place behind a prefix, additional data / nonce inside the prefix, additional data = input, nonce|aad|input adjacent - headers {1,5,13,16,17} x messages {0,1,3,4,15,16,17,20,33,64,255,256,257,1100}; in-place Open leaves the tag bytes of the caller's ciphertext alone. Oracle: result == dst||gcmref output, first len(dst) bytes unchanged, nonce/aad/input unchanged (except the exactly overlapping destination), second call == first call")
+	r := vx.Begin("C10", gcmPart("buffers-gcm"), "Seal and Open with every destination shape: len(dst) in {0..9,11,15,16,17,31,39} x spare capacity in {0,1,need-1,need,need+1,need+64}, nil, non-nil empty, and the in-place idiom dst=input[:0] - x message lengths {0,1,15,16,17,64,255,256,257,1100} x aad {0,17} x tag {12,16} x nonce {12,16}; each call repeated on the same buffers; arguments sharing one buffer in every legal way: TLS record idiom (dst prefix = additional data, payload in place behind it), in place behind a prefix, additional data / nonce inside the prefix, additional data = input, nonce|aad|input adjacent - headers {1,5,13,16,17} x messages {0,1,3,4,15,16,17,20,33,64,255,256,257,1100}; in-place Open leaves the tag bytes of the caller's ciphertext alone; bytes behind the result inside the destination's capacity keep their fill; every Open is repeated on a forged message (error, nil result, dst prefix / header / inputs untouched). Oracle: result == dst||gcmref output, first len(dst) bytes unchanged, nonce/aad/input unchanged (except the exactly overlapping destination), second call == first call")
 	defer r.End()
 	selfCheck()
 	if raw, ok := vx.Replay(gcmPart("buffers-gcm")); ok {
